@@ -70,7 +70,11 @@ def r1_vocabularies(ctx):
     for n in ast.walk(sp):
         if isinstance(n, ast.Compare) and isinstance(
                 n.ops[0], (ast.NotIn, ast.In)):
-            lst = literal(n.comparators[0])
+            c1 = n.comparators[0]
+            if isinstance(c1, ast.Name) and c1.id in pm.assigns and len(
+                    pm.assigns[c1.id]) == 1:
+                c1 = pm.assigns[c1.id][-1]
+            lst = literal(c1)
             if isinstance(lst, (list, tuple)) and "absolute" in lst:
                 rt_lists.append((n, list(lst)))
     ctx.floor("range-type vocabulary in setup_profile", len(rt_lists), 1)
@@ -184,7 +188,7 @@ def r2_answers(ctx):
                 call_name(st.value) == "input" and isinstance(
                     st.targets[0], ast.Name):
             answers.setdefault(st.targets[0].id, []).append(st)
-    ctx.floor("input() answers in setup_profile", len(answers), 9)
+    ctx.floor("input() answers in setup_profile", len(answers), 6)
     CONV = {"float", "int"}
     for var, sts in answers.items():
         # conversions of the answer
@@ -401,6 +405,15 @@ def r2_answers(ctx):
                   if isinstance(n, ast.Assign) and norm(n.targets[0]) == v.id
                   and isinstance(n.value, ast.Constant)
                   and isinstance(n.value.value, bool)]
+        for o in walk_no_nested(sp, False):
+            if isinstance(o, ast.Assign) and norm(o.targets[0]) == v.id and \
+                    isinstance(o.value, ast.Call) and isinstance(
+                    o.value.func, ast.Name) and o.value.func.id.startswith(
+                    "_") and o.value.func.id in pm.funcs:
+                # asked through a private worker the helper inliner could
+                # not place here (it loops until the answer is valid)
+                raise Undecided(f"setup_profile: the vary answer is obtained "
+                                f"through {o.value.func.id}()")
         seen = set()
         for c in consts:
             conds = conditions_at(c)
@@ -419,6 +432,13 @@ def r2_answers(ctx):
                   and not (isinstance(n.value, ast.Call)
                            and call_name(n.value) == "input")]
         for o in others:
+            if isinstance(o.value, ast.Call) and isinstance(
+                    o.value.func, ast.Name) and o.value.func.id.startswith(
+                    "_") and o.value.func.id in pm.funcs:
+                # asked through a private worker the helper inliner could
+                # not place here (it loops until the answer is valid)
+                raise Undecided(f"setup_profile: the vary answer is obtained "
+                                f"through {o.value.func.id}()")
             ctx.fail(o, f"{v.id} := {norm(o.value)[:50]}",
                      "the accepted true/false answer is transformed by an "
                      "expression before it is stored (e.g. compared with "
